@@ -198,3 +198,42 @@ impl Drop for MemoryManagerInner {
 }
 
 unsafe impl Send for ToFree {}
+
+#[cfg(multiqueue2_verif)]
+pub struct VerifMemState {
+    pub epoch: usize,
+    pub inner_epoch: usize,
+    pub tokens: Vec<(usize, usize)>,
+    pub tofree: Vec<usize>,
+    pub wait_to_free: Vec<usize>,
+    pub layout: Vec<(&'static str, usize)>,
+}
+
+#[cfg(multiqueue2_verif)]
+impl MemoryManager {
+    pub unsafe fn verif_state(&self) -> VerifMemState {
+        let inner = self.mem_manager.peek();
+        VerifMemState {
+            epoch: self.epoch.raw(),
+            inner_epoch: inner.epoch,
+            tokens: inner
+                .tokens
+                .iter()
+                .map(|t| (*t as usize, (**t).epoch.raw()))
+                .collect(),
+            tofree: inner.tofree.iter().map(|t| t.mem as usize).collect(),
+            wait_to_free: self
+                .wait_to_free
+                .peek()
+                .iter()
+                .map(|t| t.mem as usize)
+                .collect(),
+            layout: vec![
+                ("epoch", &self.epoch as *const AtomicUsize as usize),
+                ("signal", self.signal.verif_addr()),
+                ("mm_lock", self.mem_manager.addr()),
+                ("wtf_lock", self.wait_to_free.addr()),
+            ],
+        }
+    }
+}
